@@ -43,7 +43,7 @@ impl Monitor for C07 {
          = the zero indices as a set). non-trivial = non-empty input array; distinct = hash of the inputs."
     }
     fn corpus_len(&self) -> u64 {
-        EXHAUSTIVE
+        EXHAUSTIVE + 6
     }
     fn floors(&self) -> Vec<(&'static str, u64)> {
         vec![
@@ -55,6 +55,7 @@ impl Monitor for C07 {
             ("class:all_isolated", 20),
             ("class:self_loop_edge", 20),
             ("class:scatter_of_empty_array", 5),
+            ("class:tournament_merge_order", 6),
             ("api:gather", 100),
             ("api:scatter", 100),
             ("api:scatter_assign", 100),
@@ -79,6 +80,30 @@ impl Monitor for C07 {
             if idx % 40 == 0 {
                 ctx.sample("exhaustive_small_array", || json!({"array": v}));
             }
+            return;
+        }
+        if idx < EXHAUSTIVE + 6 || (ctx.thorough && r.chance(1, 3000)) {
+            // deep union-find trees: 2^k points merged in tournament order
+            let k = if idx < EXHAUSTIVE + 6 { 9 + (idx - EXHAUSTIVE) as u32 % 3 } else { 9 + r.below(4) as u32 };
+            let (n, pairs) = crate::gen::tournament_pairs(r, k);
+            // leave a few points unmerged by dropping the last level for half of the cases
+            let pairs: Vec<(usize, usize)> = if idx % 2 == 0 { pairs } else { pairs[..pairs.len() - 1].to_vec() };
+            let (src, tgt): (Vec<usize>, Vec<usize>) = pairs.iter().cloned().unzip();
+            let (cls, kk) = components(n, &pairs);
+            ctx.class("tournament_merge_order");
+            let res = guard(|| connected_components(&src, &tgt, n));
+            if let Some((lab, k2)) = must_return(ctx, "vec::connected_components", "tournament", res, || json!({"n": n, "pairs": "tournament order"})) {
+                ctx.check(k2 == kk && same_partition(&lab, &cls), "vec::connected_components/partition-equals-connectivity/value/tournament", || {
+                    json!({"n": n, "observed_k": k2, "expected_k": kk})
+                });
+            }
+            use open_hypergraphs::array::NaturalArray;
+            let res = guard(|| <VecArray<usize> as NaturalArray<VecKind>>::connected_components(&VecArray(src.clone()), &VecArray(tgt.clone()), n));
+            if let Some((lab, k2)) = must_return(ctx, "connected_components", "tournament", res, || json!({"n": n})) {
+                ctx.check(k2 == kk && same_partition(&lab.0, &cls), "connected_components/partition-equals-connectivity/value/tournament", || json!({"n": n, "observed_k": k2, "expected_k": kk}));
+            }
+            ctx.nontrivial(&(n, &pairs));
+            ctx.sample("tournament_merge_order", || json!({"n": n, "pairs": pairs.len()}));
             return;
         }
         if r.chance(1, 8) {
